@@ -137,7 +137,11 @@ fn nbt_shaped(value: Value) -> Value {
                 .collect(),
         ),
         Value::Array(items) => {
-            let items: Vec<Value> = items.into_iter().map(nbt_shaped).collect();
+            let items: Vec<Value> = items
+                .into_iter()
+                .filter(|item| !item.is_null())
+                .map(nbt_shaped)
+                .collect();
             let mixed = items.windows(2).any(|pair| kind(&pair[0]) != kind(&pair[1]));
             if !mixed {
                 return Value::Array(items);
